@@ -286,6 +286,9 @@ def step (st : St) (t : List String) : St × List String :=
   -- the platform variant without <execinfo.h>: aws_backtrace() returns 0
   | ["new", lvl, frames, cfg, "nobt"] => newTracer { st with bt := false } lvl frames cfg
   | ["depth", _] => (st, [])
+  -- harness-side fault injection (the tracer's timestamp read fails k times): timestamps are not abstract
+  -- state, a failed read is no reason to lose the record, so the model does nothing
+  | ["clock_fail", k] => if (parseSize? k).isSome then (st, []) else (st, ["bad-op"])
   | ["destroy"] =>
     match st.seq with
     | some s => ({ st with seq := none, ids := [], inj := none }, [s!"P destroy wrapped=ok client_blocks={s.par.blocks.length} bookkeeping=0 parent_after=0"])
